@@ -308,7 +308,7 @@ Section Post.
     assert (HlenC : zlen C <= numCtx cfg) by (subst C; rewrite zlen_app; lia).
     destruct (q_inputs q) as [|x r] eqn:Ei.
     2:{ cbn [q_pending q_inputs q_slot q_keep]. rewrite Hs1. repeat split; auto. discriminate. }
-    destruct (sample_at F kv' b (q_ibatch q)) as [t vis].
+    destruct (sample_at F cfg kv' b (q_ibatch q)) as [t vis].
     destruct ((0 <=? eosTok cfg) && (t =? eosTok cfg)).
     { cbn [released s_inuse s_inputs]. rewrite Hs1. split; [reflexivity|]. apply exact_view_lt. auto. }
     destruct (find_stop (concat (q_pend q ++ [piece_of t])) (q_stops q)).
@@ -369,9 +369,9 @@ Section PostAll.
   Qed.
 
   (** * processBatch preserves the invariant *)
-  Lemma process_batch_inv cfg st : inv cfg st -> inv cfg (fst (process_batch F cfg st)).
+  Lemma process_batch_inv cfg st : window cfg = None -> inv cfg st -> inv cfg (fst (process_batch F cfg st)).
   Proof.
-    intros [Hm Hin]. unfold process_batch.
+    intros Hnw [Hm Hin]. unfold process_batch.
     destruct (all_nil (seqs st)); [split; auto|].
     set (p0 := mkP (slots st) (kv st) (seqs st) [] 0 None (log st)).
     destruct (build_all_ok cfg (visit_order (length (seqs st)) (nextSeq st)) p0) as (p & E & Hmp & Hlen).
@@ -382,7 +382,7 @@ Section PostAll.
       + cbn [fst]. split; cbn [slots kv seqs]; [exact Hmp|].
         intros idx q Hq Hnil. pose proof (mo_live _ _ _ _ _ Hmp idx q Hq) as Hl.
         apply (lo_nonempty _ _ _ _ _ Hl Hnil). eapply live_pending_nil; eauto.
-      + rewrite <- Eb in Hmp |- *. set (kv' := kv_forward (p_kv p) (p_batch p)).
+      + rewrite <- Eb in Hmp |- *. rewrite (kv_evict_none cfg _ _ Hnw). set (kv' := kv_forward (p_kv p) (p_batch p)).
         destruct (post_all F cfg kv' (p_batch p) (p_slots p) (p_seqs p)) as [[[sl' qs'] ev]|] eqn:EP; [|split; auto].
         cbn [fst]. destruct (post_all_spec _ _ _ _ _ _ _ _ EP) as (L1 & L2 & Hfr & Hown & Hnone).
         assert (Hpost : forall k q, get_seq (p_seqs p) k = Some q ->
@@ -540,17 +540,17 @@ Qed.
 Section Reach.
   Variable F : list (Z * tok) -> tok.
 
-  Lemma step_op_inv cfg st o : 1 <= numCtx cfg -> inv cfg st -> inv cfg (fst (step_op F cfg st o)).
-  Proof. intros Hc Hi. destruct o; cbn [step_op]; [apply submit_inv; auto|apply process_batch_inv; auto]. Qed.
+  Lemma step_op_inv cfg st o : 1 <= numCtx cfg -> window cfg = None -> inv cfg st -> inv cfg (fst (step_op F cfg st o)).
+  Proof. intros Hc Hnw Hi. destruct o; cbn [step_op]; [apply submit_inv; auto|apply process_batch_inv; auto]. Qed.
 
-  Lemma run_inv cfg st ops : 1 <= numCtx cfg -> inv cfg st -> inv cfg (run F cfg st ops).
+  Lemma run_inv cfg st ops : 1 <= numCtx cfg -> window cfg = None -> inv cfg st -> inv cfg (run F cfg st ops).
   Proof.
-    intro Hc. revert st. induction ops as [|o ops IH]; intros st Hi; cbn [run fold_left]; [auto|].
+    intros Hc Hnw. revert st. induction ops as [|o ops IH]; intros st Hi; cbn [run fold_left]; [auto|].
     apply IH. apply step_op_inv; auto.
   Qed.
 
-  Lemma reachable_inv cfg parallel ops : 1 <= numCtx cfg -> inv cfg (run F cfg (init parallel) ops).
-  Proof. intro Hc. apply run_inv; auto. apply init_inv. Qed.
+  Lemma reachable_inv cfg parallel ops : 1 <= numCtx cfg -> window cfg = None -> inv cfg (run F cfg (init parallel) ops).
+  Proof. intros Hc Hnw. apply run_inv; auto. apply init_inv. Qed.
 End Reach.
 
 (** an accepted request gets a slot that no live sequence holds *)
